@@ -93,7 +93,7 @@ var relayPeer4 = &net.UDPAddr{IP: net.IPv4(10, 9, 9, 9), Port: 67}
 // hook captures) and returns the parsed reply, or nil when nothing was sent.
 // n is the number of datagrams sent.
 func one4(s *srv4, data []byte) (rep *dhcpv4.DHCPv4, n int, perr error) {
-	caps := s.Do(data, 2, relayPeer4)
+	caps := s.Do(data, fakeIf, relayPeer4)
 	if len(caps) == 0 {
 		return nil, 0, nil
 	}
@@ -104,7 +104,7 @@ func one4(s *srv4, data []byte) (rep *dhcpv4.DHCPv4, n int, perr error) {
 var clientPeer6 = &net.UDPAddr{IP: net.ParseIP("2001:db8:ffff::99"), Port: 546}
 
 func one6(s *srv6, data []byte) (rep dhcpv6.DHCPv6, n int, perr error) {
-	caps := s.Do(data, 2, clientPeer6)
+	caps := s.Do(data, fakeIf, clientPeer6)
 	if len(caps) == 0 {
 		return nil, 0, nil
 	}
